@@ -512,7 +512,20 @@ pub fn judge_fault_run(cfg: &ChainCfg, dry: &History, h: &History, out: &mut Run
                             return;
                         }
                     }
-                    _ => {} // search base point: Ok or Err
+                    "search_base" => {
+                        // the start point of the re-run search: a recoverable *error* there must not end
+                        // sampling (the search is skipped); a garbage value (NaN / inf) may be refused as an
+                        // invalid start point, i.e. Ok or Err
+                        if kind0 == FaultKind::RecoverableErr && failed_here && unrec.is_none() && !h.budget_exhausted {
+                            out.violate(
+                                format!("C05/recoverable_error_at_search_start_failed_the_call/{pname}"),
+                                format!("recoverable error at evaluation {k0} (start point of the re-run step-size search in draw {i}): {:?}", h.failed_call.as_ref().map(|f| &f.1)),
+                            );
+                            return;
+                        }
+                        out.probe("fault_at_search_start_judged", 1);
+                    }
+                    _ => {}
                 }
             }
             None => {}
